@@ -73,7 +73,7 @@ theorem feeHandover_ok {s s' : St} {b : BlockCtx} (h : feeHandover s b = .ok s')
     (hb : holdings s + b.feeSum < (two255 : Int)) :
     Inv0 s' ∧ Frame { s with ghost := s'.ghost } s' ∧ s'.frozen = s.frozen ∧
     holdings s' + ((s'.ghost.feeBurn : Int) - s.ghost.feeBurn) = holdings s + b.feeSum ∧
-    s'.ghost.withdrawn = s.ghost.withdrawn := by
+    s'.ghost.withdrawn = s.ghost.withdrawn ∧ s.ghost.feeBurn ≤ s'.ghost.feeBurn := by
   unfold feeHandover at h
   split at h
   · dsimp only at h
@@ -90,7 +90,7 @@ theorem feeHandover_ok {s s' : St} {b : BlockCtx} (h : feeHandover s b = .ok s')
       have hlt' : ((a.bal + b.feeSum : Nat) : Int) < (two256 : Int) := by push_cast; omega
       have e := addBalance_exact ha' (by exact_mod_cast hlt')
       subst e
-      refine ⟨inv0_setAcct hi _, ⟨by simp, rfl, rfl, rfl, rfl, rfl⟩, rfl, ?_, rfl⟩
+      refine ⟨inv0_setAcct hi _, ⟨by simp, rfl, rfl, rfl, rfl, rfl⟩, rfl, ?_, rfl, Nat.le_refl _⟩
       rw [holdings_update hi hf (a' := { a with bal := a.bal + b.feeSum }) rfl]
       simp; omega
     | none =>
@@ -101,12 +101,12 @@ theorem feeHandover_ok {s s' : St} {b : BlockCtx} (h : feeHandover s b = .ok s')
       have hlt' : ((0 + b.feeSum : Nat) : Int) < (two256 : Int) := by push_cast; omega
       have e := addBalance_exact ha' (by exact_mod_cast hlt')
       subst e
-      refine ⟨inv0_setAcct hi _, ⟨by simp, rfl, rfl, rfl, rfl, rfl⟩, rfl, ?_, rfl⟩
+      refine ⟨inv0_setAcct hi _, ⟨by simp, rfl, rfl, rfl, rfl, rfl⟩, rfl, ?_, rfl, Nat.le_refl _⟩
       rw [holdings_setAcct]
       simp only
       rw [fAt_none _ hf]; simp
   · injection h with h; subst h
-    refine ⟨⟨hi.acctKey, hi.delegKey, hi.frozenKey⟩, ⟨rfl, rfl, rfl, rfl, rfl, rfl⟩, rfl, ?_, rfl⟩
+    refine ⟨⟨hi.acctKey, hi.delegKey, hi.frozenKey⟩, ⟨rfl, rfl, rfl, rfl, rfl, rfl⟩, rfl, ?_, rfl, Nat.le_add_right _ _⟩
     show holdings s + _ = _
     simp; omega
 
@@ -272,20 +272,14 @@ theorem end_ok {s : St} (hinv : Inv .inBlock s) (hb : SupplyBound s) (hc : EndCo
   have v2 := v1.trans (applyProposals_valEq h2)
   have i2 := v2.inv0 hi
   have hh2 : holdings s2 = holdings s := v2.holdings
-  obtain ⟨i3, f3, z3, hold3, w3⟩ := feeHandover_ok h3 i2 (by rw [hh2]; omega)
+  obtain ⟨i3, f3, z3, hold3, w3, hfb0⟩ := feeHandover_ok h3 i2 (by rw [hh2]; omega)
   have sync3 : FrozenSync s3 := by unfold FrozenSync; rw [z3]; exact v2.sync hsync
-  have hfb : (0 : Int) ≤ (s3.ghost.feeBurn : Int) - s2.ghost.feeBurn := by
-    unfold feeHandover at h3
-    split at h3
-    · dsimp only at h3
-      split at h3; · cases h3
-      injection h3 with h3; subst h3; simp
-    · injection h3 with h3; subst h3; simp
+  have hfb : (0 : Int) ≤ (s3.ghost.feeBurn : Int) - s2.ghost.feeBurn := by omega
   have hb3 : holdings s3 < (two255 : Int) := by omega
   have u4 := unfreeze_ok h4 i3 hb3 sync3
   have v5 := updateValidators_valEq h5
   have i5 := v5.inv0 u4.inv0
-  refine ⟨⟨i5, ⟨fun h => by cases h, fun _ => ?_⟩, fun h => absurd rfl h, fun h => by cases h⟩, ?_, ?_⟩
+  refine ⟨⟨i5, ⟨(fun h => by cases h), (fun _ => ?_)⟩, (fun h => absurd rfl h), (fun h => by cases h)⟩, ?_, ?_⟩
   · rw [v5.blk, u4.blk, f3.blk]; simp only; rw [v2.blk, hbk]; simp
   · rw [v5.holdings, u4.hold, v5.ghost, u4.feeBurn]
     rw [v2.ghost] at hold3
